@@ -32,7 +32,7 @@ PROBES = ['unknown-object', 'unknown-method', 'invalid-args', 'interface-omitted
           'no-reply-dispatched', 'deferred-fired-out-of-order', 'deferred-fired-after-loss',
           'same-member-two-interfaces', 'dbusCaller-requested', 'inherited-interface-called', 'interface-bound-across-classes',
           'unencodable-return', 'invalid-error-name', 'peer-ping', 'several-calls-in-flight',
-          'nested-exception-class', 'deferred-already-fired', 'export-over-exported-path']
+          'nested-exception-class', 'deferred-already-fired', 'export-over-exported-path', 'base-class-instance-first', 'call-after-unexport']
 COMPONENTS = {
     'real': ['txdbus.objects.DBusObjectHandler.handleMethodCallMessage / DBusObject.executeMethod',
              'txdbus.client.DBusClientConnection', 'txdbus.message / marshal', 'twisted Deferred'],
@@ -164,11 +164,22 @@ def scenario(ctx):
             cs = objgen.class_spec(ds, 'C%d' % i, with_base=base, rich=True)
             txi = objgen.build_tx_ifaces(cs)
             klass = objgen.build_class(cs, hook, txi)
+            if base is not None and cs.split_iface is None and ds.flag(0.4):
+                # an instance of the base class itself is in use before the first instance of
+                # the subclass exists
+                bp = '/base%d' % i
+                bo = base.klass(bp)
+                objs[bp] = (bo, base)
+                extra_paths.append(bp)
+                cl.exportObject(bo)
+                sim.probe('base-class-instance-first')
             o = klass(p)
             specs.append(cs)
             objs[p] = (o, cs)
             cl.exportObject(o)
+    extra_paths = []
     rig.call(build)
+    paths.extend(extra_paths)
     if ds.flag(0.2):
         # a different object is exported over a path that is already exported: it takes over
         sim.probe('export-over-exported-path')
@@ -185,11 +196,46 @@ def scenario(ctx):
     ctx.config.update(paths=paths)
 
     calls = []      # dict(msg, expect..., replies)
+    unexported = [False]
+    do_unexport = ds.flag(0.4)
     replies = {}    # reply_serial -> [Msg]
     nseen = [len(rig.sent)]
     budget = [1 + ds.choose(12 * (3 if ctx.tier == 'thorough' else 1))]
 
+    gone = []       # paths unexported during the run
+
+    def op_unexport():
+        # the object stops being exported: calls not yet processed at this instant, and all later
+        # ones, are calls to an unknown object (Deferred answers still owed are still owed)
+        p = paths[ds.choose(len(paths))]
+        paths.remove(p)
+        gone.append(p)
+        for c in calls:
+            if c['path'] == p and c['end'] > rig.conn.pipes[1].base and c['expect'] != 'ping':
+                c['expect'] = c['kindname'] = 'unknown-object'
+        sim.log('op', 'unexport', p)
+        rig.call(cl.unexportObject, p)
+
+    def again_after_unexport():
+        # the very call that worked before, now that the object is gone
+        old = [c for c in calls if c['path'] in gone and c['iface'] is not None and c['kind'] == 0]
+        if not old:
+            return False
+        o = old[ds.choose(len(old))]
+        c = {'path': o['path'], 'sender': o['sender'], 'flags': 0, 'kind': 1,
+             'kindname': 'unknown-object', 'iface': o['iface'], 'member': o['member'],
+             'sig': o['sig'], 'body': gen.body(ds, o['sig']), 'expect': 'unknown-object'}
+        m = daemon.call(c['path'], c['member'], c['iface'], c['sig'], c['body'], sender=c['sender'],
+                        dest=rig.bus_name, flags=0, little=True)
+        c.update(serial=m.serial, msg=m, end=rig.conn.pipes[1].total, delivered=False)
+        calls.append(c)
+        sim.probe('call-after-unexport')
+        sim.log('op', 'call', 'again-after-unexport', c['path'], c['iface'], c['member'])
+        return True
+
     def pick_call():
+        if gone and ds.flag(0.5) and again_after_unexport():
+            return
         p = ds.pick(paths)
         o, cs = objs[p]
         ifs = cs.all_ifaces()
@@ -249,6 +295,12 @@ def scenario(ctx):
                 budget[0] -= 1
                 pick_call()
             ops.append(('call', op))
+            if len(paths) > 1 and calls and not unexported[0]:
+                def unexp():
+                    unexported[0] = ds.flag(0.7)      # mostly one unexport per run
+                    op_unexport()
+                if do_unexport:
+                    ops.append(('unexport', unexp))
         fires = []
         for i, rec in enumerate(deferreds):
             def fire(i=i, rec=rec):
